@@ -17,7 +17,7 @@ RULE = ('lock-step histories (<=40 ops) on ParameterTable (keyed and positional)
         'distinct by canonical op sequence / (n,ncols,transpose,kind) / shape')
 SHARDS = {'quick': 8, 'thorough': 16}
 MIN_NONTRIVIAL = {'quick': 1500, 'thorough': 50000}
-REQUIRED_CLASSES = ['table-keyed', 'table-list', 'rows-list', 'rows-array', 'grid', 'grid-transposed', 'combination',
+REQUIRED_CLASSES = ['rows-lazy-columns-array-mode', 'table-keyed', 'table-list', 'rows-list', 'rows-array', 'grid', 'grid-transposed', 'combination',
                     'rows-sort', 'table-delete', 'table-overwrite', 'table-reinsert', 'table-positional-after-delete',
                     'table-empty-keyed', 'table-empty-list', 'table-emptied-by-delete',
                     'combination-items:duplicates', 'combination-items:numbers', 'combination-items:mixed', 'combination-items:numpy']
@@ -116,8 +116,13 @@ def gen_rows(rng):
             return rng.randint(-6, 6)       # few values -> ties
         if k == 'float':
             return rng.choice([rng.randint(-3, 3) + 0.5, round(rng.uniform(-10, 10), 4)])
+        if k == 'mixed':
+            return rng.choice([rng.randint(-6, 6), rng.randint(-3, 3) + 0.25, True])
         return 's' + rng.choice('abcdefgh') * rng.randint(0, 3)
-    lazy = (not array) and rng.random() < 0.15     # columns defined by the first dict row
+    lazy = rng.random() < 0.15     # columns defined by the first dict row (list mode, and array mode with the default float64 columns)
+    if lazy and array:
+        dtypes = None
+        kinds = ['mixed'] * ncol                    # whole numbers and fractions in one column, the first row whole
     ops = []
     init = None
     if not lazy and rng.random() < 0.4:
@@ -126,6 +131,8 @@ def gen_rows(rng):
         r = rng.random()
         row = [val(k) for k in kinds]
         if lazy and not ops:
+            if array:
+                row = [rng.randint(0, 6) for _ in kinds]          # a first row of whole numbers
             ops.append(['appd', list(range(ncol)), row])
         elif r < 0.5:
             ops.append(['appl', None, row])
@@ -415,8 +422,10 @@ def run_rows(case, ctx):
     nontrivial = False
     model = [list(r) for r in (case['init'] or [])]
     if case['lazy']:
-        rc = snt.RowCollector()
+        rc = snt.RowCollector(array=True) if array else snt.RowCollector()
         classes.append('rows-lazy-columns')
+        if array:
+            classes.append('rows-lazy-columns-array-mode')
     elif array and case['dtypes']:
         rc = snt.RowCollector({c: dict(dtype=case['dtypes'][c]) for c in cols}, case['init'], array=True)
     else:
